@@ -105,13 +105,24 @@ class Scenario:
         outer = self
 
         class L(S.ServerServiceListener):
+            # the listener doubles as the table of its current subscribers (a container: empty, hence falsy, when it is handed
+            # to the instance)
+            def __init__(self):
+                self.table = []
+
+            def __len__(self):
+                return len(self.table)
+
             def client_subscribed(self, sub, source):
                 outer.listener_calls.append(("sub", sub.id, sub.counter, source))
                 if rejected(sub.id, sub.counter):
                     raise S.NakSubscription()
+                self.table.append((sub, source))
 
             def client_unsubscribed(self, sub, source):
                 outer.listener_calls.append(("unsub", sub.id, sub.counter, source))
+                if (sub, source) in self.table:
+                    self.table.remove((sub, source))
 
         self.objs = []
         for inst in self.insts:
